@@ -207,7 +207,8 @@ def gen(t, tier):
 
 
 def _gen_defrag(t):
-    return ['defrag', t.pick([0, 0, 0.01, 0.1, 0.9]), t.pick([0, 0, 100, 1024 * 1024]), bool(t.chance(0.15))]
+    return ['defrag', t.pick([0, 0, 0.01, 0.1, 0.9]), t.pick([0, 0, 100, 1024 * 1024]), bool(t.chance(0.15)),
+            t.pick([None, None, None, t.choice(6), 1 + t.choice(40), 2 + t.choice(130)])]
 
 
 def shrink(sc):
@@ -301,7 +302,45 @@ def _defrag(w, runner_cache, version, pool, model_get, op, what, probes):
             raise M.Mismatch('dry-run-changed-files', '%s: a dry run changed %s' % (what, changed[:4]))
         probes['defrag_dry_runs'] = probes.get('defrag_dry_runs', 0) + 1
         return
-    defrag_compact_cache(runner_cache, min_percent=op[1], min_bytes=op[2])
+    aborted = False
+    if len(op) > 4 and op[4] is not None:
+        # one open() of a bundle for reading fails during the defragmentation (too many open files, stale network handle):
+        # the run may abort, it must not lose a tile
+        st = {'n': 0, 'fired': False}
+        prev_hook = w.fs.fault_hook
+
+        def hook(fsop, key, proc):
+            if fsop == 'open' and str(key).endswith('.bundle') and not st['fired']:
+                st['n'] += 1
+                if st['n'] - 1 == op[4]:
+                    st['fired'] = True
+                    import errno
+                    e = OSError(errno.ENFILE, os.strerror(errno.ENFILE), str(key))
+                    e.injected = True
+                    raise e
+            return None
+        w.fs.fault_hook = hook
+        try:
+            defrag_compact_cache(runner_cache, min_percent=op[1], min_bytes=op[2])
+        except OSError as ex:
+            if not getattr(ex, 'injected', False):
+                raise
+            aborted = True
+            ex = None
+            import gc
+            gc.collect()
+        finally:
+            w.fs.fault_hook = prev_hook
+        if st['fired']:
+            probes['defrag_open_errors'] = probes.get('defrag_open_errors', 0) + 1
+    else:
+        defrag_compact_cache(runner_cache, min_percent=op[1], min_bytes=op[2])
+    if aborted:
+        # leftovers of the aborted run (tmp_defrag.*) are not bundles of the cache
+        tree = w.fs.tree()
+        for pth in list(tree):
+            if 'tmp_defrag' in pth:
+                w.fs.unlink('/simfs' + pth)
     n, tree = _validate(w, version, what + ' (after defrag)')
     after_sizes = _bundle_sizes(tree)
     shrunk = 0
